@@ -104,6 +104,7 @@ func init() {
 		Explain: "Decides the rejection clause and the wiring of coordinate addressing: (S1) every non-error iteration path of Ltoi's coordinate loop has established coord >= 0 and coord < size, and the scalar branch accepts only 0; (S2) in At/SetAt/MaskAt/SetMaskAt every path to Get/Set/mask[...] has passed the arity check and the error check of the offset computation and uses exactly that offset, at() is Ltoi over the tensor's own Shape() and Strides(), maskAt() is at(); (K3/K1arms) the typed Get/Set/Memset arms of array and storage.Header use only accessors and assertions of their own label type and agree with their sibling arms; (S8) stride-routine selection by data order. " +
 			"Not decided: that CalcStrides* compute the right products and that Ltoi's sum is the rank in data order (value arithmetic); behaviour of the column-major converting constructor.",
 		Run: func(rc *rules.RC) {
+			rules.FL(rc, 2)
 			rules.O6(rc)
 			rules.V2(rc, 2)
 			rules.S19(rc)
@@ -126,6 +127,8 @@ func init() {
 		Explain: "Decides: (S3) CheckSlice accepts only when start <= end, start >= 0, not(step == 0 and end-start > 1), start < size, and SliceDetails validates every non-nil slice, clamps end and expands nil to (0,size,1); (S4) AP.S and Shape.S refuse more slices than axes and take (start,end,step) of every axis from SliceDetails; (S5) the length term under step > 0 is ceil((end-start)/step) with no extra condition, identical in both calculators; (S9) Slice/SliceInto take window and access pattern from one AP.S call, slice data and mask with the same window, record the parent and copy dtype/engine/flag. " +
 			"(S12) the sliced access pattern is marked NonContiguous at least when a non-outermost axis of a non-vector is sliced or a step > 1 is taken, with the outermost axis chosen by data order (names bound structurally). Not decided: offset (ndStart/ndEnd) arithmetic, stride scaling, which dimensions are dropped.",
 		Run: func(rc *rules.RC) {
+			rules.FL(rc, 2)
+			rules.LC(rc, 18)
 			rules.S20(rc)
 			rules.S18(rc)
 			rules.S16(rc, 1)
@@ -259,6 +262,7 @@ func init() {
 		Explain: "Decides: (L0) RequiresIterator/IsMaterializable/IsView are the boolean functions every guard relies on; (L1) every path to a raw whole-buffer access in Memset, Zero, Copy, Materialize, ToMat64 has established that the tensor is not a view / does not require an iterator (iterator-driven variants are used otherwise); (M2/M3) in-place arithmetic through a view runs the iterator kernel paired with the view's own iterator, never a raw kernel on the iterator path; (V1) Clone, Materialize, SafeT allocate the result's storage, copy elements with a copy primitive and share no array/Header/Raw/mask with the source; (O8) and no access-pattern slices either; (S9) Slice/SliceInto build the view over the parent's window. " +
 			"Not decided: that the iterator writes land on the right elements (C05's arithmetic); native-slice conversions' element order.",
 		Run: func(rc *rules.RC) {
+			rules.K3(rc, func(fi *load.FuncInfo) bool { return strings.HasPrefix(fi.File, "eng_") }, 100, 1000)
 			rules.S18(rc)
 			rules.SV(rc, 20)
 			rules.IP(rc, 2)
